@@ -43,6 +43,11 @@ fn main() {
         for fl in faults { writeln!(ff, "FAULT -1 {}", fl).unwrap(); }
         return;
     }
+    if args[1] == "--stream-table" {
+        std::panic::set_hook(Box::new(|_| {}));
+        for r in shapes::stream_table() { println!("{}", r); }
+        return;
+    }
     let path = &args[1];
     let fault_path = &args[2];
     let marker = args.get(3).cloned();
